@@ -97,6 +97,12 @@ func (w *World) CheckIdentity(o *Obs, prop string) []Violation {
 			}
 		}
 	}
+	// objects returned by the query API GetComponents(InterfaceType(...))
+	for _, name := range sdl.SortedKeys(o.ByIface) {
+		for _, obj := range o.ByIface[name] {
+			see(obj, "GetComponents("+name+")")
+		}
+	}
 	created := w.Created(o)
 	for _, id := range sdl.SortedKeys(o.Lookup) {
 		l := o.Lookup[id]
@@ -281,6 +287,43 @@ func (w *World) CheckTypeInjection(out *Outcome, o *Obs) []Violation {
 						vs = append(vs, v("C06", "slice-extra-component", key, fmt.Sprintf("%s holds %s outside the expected set %v", key, c, r.Cands)))
 					}
 				}
+			}
+		}
+	}
+	return vs
+}
+
+// CheckQueryByInterface: GetComponents(InterfaceType(I)) after a successful start returns
+// every registered component implementing I exactly once (part of C06).
+func (w *World) CheckQueryByInterface(o *Obs) []Violation {
+	var vs []Violation
+	if !o.OK() || o.ByIface == nil || w.hasSubst() {
+		return nil
+	}
+	for k := 0; k < w.P.NIfaces; k++ {
+		name := fmt.Sprintf("%sI%d", w.P.ID, k)
+		got, ok := o.ByIface[name]
+		if !ok || o.ByIfaceErr[name] {
+			continue
+		}
+		want := map[string]bool{}
+		for _, i := range w.P.Instances {
+			if hasIface(w.Types[i.Type], k) && w.ByName[w.P.NameOf(i)][0] == i.ID {
+				want[i.ID] = true
+			}
+		}
+		seen := map[string]int{}
+		for _, g := range got {
+			seen[w.componentOf(g)]++
+		}
+		for _, id := range sdl.SortedKeys(want) {
+			if seen[id] != 1 {
+				vs = append(vs, v("C06", "query-by-interface-incomplete", name, fmt.Sprintf("GetComponents(InterfaceType(%s)) returned %s %d times; implementers: %v, returned: %v", name, id, seen[id], sdl.SortedKeys(want), got)))
+			}
+		}
+		for _, id := range sdl.SortedKeys(seen) {
+			if !want[id] {
+				vs = append(vs, v("C06", "query-by-interface-unsound", name, fmt.Sprintf("GetComponents(InterfaceType(%s)) returned %s which does not implement it; returned: %v", name, id, got)))
 			}
 		}
 	}
